@@ -22,7 +22,7 @@ ASSUMPTIONS = [
 
 
 def gen(draw):
-    c = P.gen_case(draw, nsamples=(1, 1), ncontigs=(1, 2), length=(400, 1000), depth=(1, 6), read_len=(60, 250), paired_share=20,
+    c = P.gen_case(draw, nsamples=(1, 2), ncontigs=(1, 2), length=(400, 1000), depth=(1, 6), read_len=(60, 250), paired_share=20,
                    skip_share=0, clip_share=5, eqx_share=0)
     # plant homopolymer runs next to a few variants
     for contig in c["contigs"]:
@@ -46,18 +46,18 @@ def gen(draw):
                 v["ref"] = newref
                 if v["alt"] == v["ref"]:
                     v["alt"] = ("A" if v["ref"][0] != "A" else "C") + v["ref"][1:]
-    s = c["samples"][0]
-    phasing = {s: {}}
-    keep = {}
-    for contig in c["contigs"]:
+    phasing = {s: {} for s in c["samples"]}
+    keep = {s: {} for s in c["samples"]}
+    for s in c["samples"]:
+      for contig in c["contigs"]:
         name = contig["name"]
         n = len(c["variants"][name])
         sets = assign_sets(draw, n)
         phasing[s][name] = {"sets": sets, "unphased": [draw(st.integers(0, 9)) == 0 for _ in range(n)],
                             "swap": {str(k): draw(st.booleans()) for k in set(sets)}}
         mode = draw(st.sampled_from(["none", "some", "some", "all"]))
-        keep[name] = [mode == "all" or (mode == "some" and draw(st.booleans())) for _ in range(n)]
-        # drop reads that would overlap two phase sets
+        keep[s][name] = [mode == "all" or (mode == "some" and draw(st.booleans())) for _ in range(n)]
+        # drop reads of this sample that would overlap two of its phase sets
         bounds = {}
         for vi, k in enumerate(sets):
             p = c["variants"][name][vi]["pos"]
@@ -67,7 +67,7 @@ def gen(draw):
             return {k for k, (lo, hi) in bounds.items() if a < hi and b > lo}
         kept = []
         for sp in c["read_specs"]:
-            if sp["chrom"] != name:
+            if sp["chrom"] != name or sp["sample"] != s:
                 kept.append(sp)
                 continue
             segs = list(sp["segments"]) + ([sp["pair"]] if "pair" in sp else [])
@@ -85,7 +85,7 @@ def gen(draw):
     c["enc"] = "PS"
     # phase set labels: the position of the first variant (as whatshap phase writes them), of the last one, or unrelated numbers
     c["ps_label"] = draw(st.sampled_from(["first", "first", "last", "arbitrary"]))
-    c["hp_opts"] = {"only_indels": draw(st.integers(0, 3)) == 0, "ignore_read_groups": draw(st.integers(0, 3)) == 0}
+    c["hp_opts"] = {"only_indels": draw(st.integers(0, 3)) == 0, "ignore_read_groups": len(c["samples"]) == 1 and draw(st.integers(0, 3)) == 0}
     c["tag_reads_of_sets"] = draw(st.sampled_from(["all", "all", "first-set-only"]))
     return c
 
@@ -112,7 +112,6 @@ class PipelinePart:
     def run(self, case, ctx):
         from whatshap.cli.haplotagphase import run_haplotagphase
         d = ctx.tmp()
-        s = case["samples"][0]
         reads = G.render_specs(case, case["read_specs"])
         if not reads:
             return
@@ -124,13 +123,15 @@ class PipelinePart:
         if case["tag_reads_of_sets"] == "first-set-only":
             # keep tags only on reads of the first phase set of each contig (others lose HP/PS): models partial tagging
             firsts = {}
-            for (cname, vi), (sid, order) in sorted(truth.get(s, {}).items()):
-                firsts.setdefault(cname, sid)      # label of the leftmost phased variant's set
+            for s in case["samples"]:
+                for (cname, vi), (sid, order) in sorted(truth.get(s, {}).items()):
+                    firsts.setdefault((s, cname), sid)      # label of the leftmost phased variant's set
             tmp = tagged + ".tmp.bam"
             with pysam.AlignmentFile(tagged) as f, pysam.AlignmentFile(tmp, "wb", template=f) as o:
                 names = f.references
                 for a in f.fetch(until_eof=True):
-                    if a.has_tag("PS") and not a.is_unmapped and a.get_tag("PS") != firsts.get(names[a.reference_id]):
+                    smp = a.get_tag("RG")[3:] if a.has_tag("RG") else None
+                    if a.has_tag("PS") and not a.is_unmapped and a.get_tag("PS") != firsts.get((smp, names[a.reference_id])):
                         for t in ("HP", "PS", "PC"):
                             a.set_tag(t, None)
                     o.write(a)
@@ -138,12 +139,14 @@ class PipelinePart:
         pysam.index(tagged)
         # input VCF of haplotagphase: only the kept variants stay phased
         case2 = dict(case)
-        ph2 = {s: {}}
-        for contig in case["contigs"]:
-            name = contig["name"]
-            p = case["phasing"][s][name]
-            ph2[s][name] = {"sets": p["sets"], "swap": p["swap"],
-                            "unphased": [u or not k for u, k in zip(p["unphased"], case["keep"][name])]}
+        ph2 = {s: {} for s in case["samples"]}
+        for s in case["samples"]:
+            for contig in case["contigs"]:
+                name = contig["name"]
+                p = case["phasing"][s][name]
+                ph2[s][name] = {"sets": p["sets"], "swap": p["swap"],
+                                # (older replay files keep one list per contig for their single sample)
+                                "unphased": [u or not k for u, k in zip(p["unphased"], case["keep"][s][name] if s in case["keep"] else case["keep"][name])]}
         case2["phasing"] = ph2
         part_vcf, kept_truth = write_phased_vcf(case2, os.path.join(d, "partial.vcf"))
         out = os.path.join(d, "out.vcf")
@@ -153,18 +156,24 @@ class PipelinePart:
                 run_haplotagphase(variant_file=part_vcf, alignment_file=tagged, output=fo, reference=ref, write_command_line_header=False,
                                   **case.get("hp_opts", {}))
         P.check_readable(out, "haplotagphase")
-        before = read_calls(part_vcf, s)
-        after = read_calls(out, s)
-        orig = read_calls(vcfgz, s)
-        tagged_sets = {}
+        all_tagged = {}
         with pysam.AlignmentFile(tagged) as f:
             names = f.references
             for a in f.fetch(until_eof=True):
                 if a.has_tag("PS") and not a.is_unmapped:
-                    tagged_sets.setdefault(names[a.reference_id], []).append((a.reference_start, a.reference_end, a.get_tag("PS")))
+                    smp = a.get_tag("RG")[3:] if a.has_tag("RG") else None
+                    all_tagged.setdefault((smp, names[a.reference_id]), []).append((a.reference_start, a.reference_end, a.get_tag("PS")))
         newly = kept = 0
-        nsets = len({sid for sid, _ in truth.get(s, {}).values()})
-        for key, (gt, ph, ps) in after.items():
+        nsets = 0
+        if len(case["samples"]) > 1:
+            ctx.label("two-samples")
+        for s in case["samples"]:
+          before = read_calls(part_vcf, s)
+          after = read_calls(out, s)
+          orig = read_calls(vcfgz, s)
+          tagged_sets = {cn: v for (smp, cn), v in all_tagged.items() if smp == s or case.get("hp_opts", {}).get("ignore_read_groups")}
+          nsets = max(nsets, len({sid for sid, _ in truth.get(s, {}).values()}))
+          for key, (gt, ph, ps) in after.items():
             b = before[key]
             if any(a is None for a in gt):
                 if ph:
